@@ -33,11 +33,13 @@ Definition u_step (s b : N) : N :=
   | 8 => if inr 0x80 0x8F b then 3 else 1
   | _ => 1
   end.
-(* utf8validator.py: Utf8Validator.validate -- stops at the first octet that leads to REJECT, the object keeps
-   state REJECT (sticky); a call that meets no such octet (e.g. an empty chunk) reports valid = True. *)
+(* utf8validator.py: Utf8Validator.validate -- stops at the first octet that leads to REJECT; the object keeps state
+   REJECT (sticky).  A call that consumes all its octets reports valid = (state != REJECT): in particular an empty chunk
+   given to a validator that has already rejected is reported invalid again (upstream fix a0b6310f; the native
+   validator behaves the same since ebfd183a). *)
 Fixpoint u_loop (s : N) (bs : list N) : bool * N :=
   match bs with
-  | [] => (true, s)
+  | [] => (negb (s =? 1), s)
   | b :: r => let s' := u_step s b in if s' =? 1 then (false, 1) else u_loop s' r
   end.
 (* (valid?, endsOnCodePoint?, new state) *)
